@@ -1,6 +1,7 @@
 import Monorail.Driver.Util
 import Monorail.Spec.C03
 import Monorail.Spec.C10
+import Monorail.Model.Kahn
 open Lean
 namespace Monorail.Driver
 
@@ -29,7 +30,9 @@ def handleDag (j : Json) : Except String Json := do
   let adj ← natListsOf (← getArr j "adj")
   let roots ← natsOf (← getArr j "roots")
   let g : Graph := ⟨adj⟩
-  let base := [("model", jGroupsRes (groups g roots)), ("closure", jNats (closure g roots))]
+  let base := [("model", jGroupsRes (groups g roots)), ("closure", jNats (closure g roots)),
+    -- the concrete counter/queue loop: comparable with the implementation including the order inside groups
+    ("kahn", jGroupsRes (kahn g (closure g roots)))]
   match j.getObjVal? "obs" with
   | .ok obs =>
     let (v, w) ← judgeGroups g roots obs
